@@ -302,6 +302,42 @@ R.contract(
 
 NATIVE = {"helpers": {"list_of": list, "paths_of": lambda self_: self_.raw_schema.get("paths", {})}}
 
+# ------------------------------------------------------------------------------------------------- which security schemes apply: the operation's own `security` overrides the global one
+_Reqs = Choice([], [{"a": []}], [{"b": []}], [{"a": [], "b": []}], [{"a": []}, {"c": []}])
+R.contract(
+    SEC + "BaseSecurityProcessor.get_security_requirements",
+    prop="C08",
+    args={"schema": DictOf(optional={"security": _Reqs}), "operation": Obj("spec:SecuredOp", definition=Obj("spec:SecuredDef", raw=DictOf(optional={"security": _Reqs})))},
+    raises=[],
+    ensures={
+        # "This definition overrides any declared top-level security. To remove a top-level security declaration, an empty array can be used."
+        "operation_level_security_overrides_the_global_one": "result == [k for r in (operation.definition.raw['security'] if 'security' in operation.definition.raw else schema.get('security', [])) for k in r]",
+    },
+    bounded_note="5 requirement lists at each level",
+)
+R.contracts[SEC + "BaseSecurityProcessor.get_security_requirements"].inline = True
+R.contract(SEC + "BaseSecurityProcessor.get_security_definitions", args={"self": Opq("Any"), "schema": Opq("Any"), "resolver": Opq("Any")}, trusted=True,
+           returns=lambda it, env: it.ghost.__setitem__("definitions", DictOf(optional={"a": Opq("SchemeDef"), "b": Opq("SchemeDef"), "c": Opq("SchemeDef")}).make(it, it.path.fresh("definitions"))) or it.ghost["definitions"],
+           note="securityDefinitions / components.securitySchemes of the document (resolved)")
+R.contract(
+    SEC + "BaseSecurityProcessor._get_active_definitions",
+    variant="selection",
+    prop="C08",
+    args={"self": Obj(SEC + "BaseSecurityProcessor"), "schema": DictOf(optional={"security": _Reqs}), "operation": Obj("spec:SecuredOp", definition=Obj("spec:SecuredDef", raw=DictOf(optional={"security": _Reqs}))),
+          "resolver": Opq("ResolverRef")},
+    ghost={"definitions": None},
+    raises=[],
+    ensures={
+        # exactly the DEFINED schemes that the operation's effective requirements name - each once
+        "exactly_the_required_defined_schemes": "length(result) == length([n for n in ghost('definitions') if n in effective(schema, operation)]) and "
+                                                "all(any(d is ghost('definitions')[n] for d in result) for n in ghost('definitions') if n in effective(schema, operation))",
+    },
+    bounded_note="up to 3 defined schemes",
+    replayable=False,
+)
+R.spec_funcs["effective"] = lambda it, schema, operation: [k for r in (operation.fields["definition"].fields["raw"]["security"] if "security" in operation.fields["definition"].fields["raw"] else schema.get("security", [])) for k in r]
+
+
 # ------------------------------------------------------------------------------------------------- resolve_all: every reference in a definition is replaced by what it points to
 REFS = "schemathesis.specs.openapi.references:"
 _TABLE = {"#/components/x": {"type": "string", "maxLength": 3}, "#/components/y": {"$ref": "#/components/x"},
